@@ -1,7 +1,7 @@
 package router
 
 //verif:dir internal/router
-//verif:bound route tables of 2 routes drawn from 10 endpoint shapes (including trailing-slash twins) x {GET, ANY} with request paths of arbitrary bytes over {/ a b c}, len<=4 (quick) / <=5 (thorough); method GET; the iteration order of the route map is arbitrary and independent in the two lookups
+//verif:bound route tables of 2 routes drawn from 10 endpoint shapes (including trailing-slash twins) x {GET, ANY} with request paths of arbitrary bytes over {/ a b c}, len<=4 (quick) / <=5 (thorough); thorough also 3 routes with paths of len<=2; route tables of 2 routes drawn from 5 three-segment shapes with paths of len<=5; method GET; the iteration order of the route map is arbitrary and independent in the two lookups
 //verif:outside the concrete server route table (its routes are instances of these shapes), route locking, paths longer than the bound
 
 import (
@@ -40,15 +40,31 @@ func c32Matches(endpoint string, segs []string) bool {
 func VerifC32_deterministicAndMostSpecific() {
 	nRoutes, nPath := 2, 4
 	if sym.Thorough() {
-		nPath = 5 // three routes did not finish within the thorough budget (45 min): stated as outside
+		// deeper in one direction at a time (three routes with paths of 5 bytes,
+		// and with 3, did not finish within the thorough budget)
+		if sym.Bool("threeRoutes") {
+			nRoutes, nPath = 3, 2
+		} else {
+			nPath = 5
+		}
 	}
+	c32Check(c32Endpoints, nRoutes, nPath)
+}
+
+// VerifC32_threeSegmentRoutes: the same over routes of three segments, where a
+// route with MORE variables can sort before one with fewer.
+func VerifC32_threeSegmentRoutes() {
+	c32Check([]string{"/a/{{x}}/{{y}}", "/{{x}}/b/c", "/a/b/{{x}}", "/{{x}}/{{y}}/c", "/a/b/c"}, 2, 5)
+}
+
+func c32Check(endpoints []string, nRoutes, nPath int) {
 	sym.Bound("routes", nRoutes)
 	sym.Bound("pathBytes", nPath)
 	m := NewRouter("verif")
 	var eps []string
 	var methods []string
 	for i := 0; i < nRoutes; i++ {
-		ep := c32Endpoints[sym.Choice("endpoint", len(c32Endpoints))]
+		ep := endpoints[sym.Choice("endpoint", len(endpoints))]
 		method := []string{"GET", AnyMethod}[sym.Choice("method", 2)]
 		for j := range eps {
 			sym.Assume(!(eps[j] == ep && methods[j] == method)) // distinct selectors
